@@ -180,8 +180,19 @@ func (ps *Parser) getItemProp(element *html.Node) []string {
 }
 
 func (ps *Parser) getItemType(element *html.Node) SchemaType {
-	schemaType := dom.GetAttribute(element, "itemtype")
-	return schemaTypeURLs[schemaType]
+	// itemtype is a white space separated list of URLs, and schema.org
+	// is served by https as well as by http.
+	for _, schemaType := range strings.Fields(dom.GetAttribute(element, "itemtype")) {
+		if strings.HasPrefix(schemaType, "https://") {
+			schemaType = "http://" + strings.TrimPrefix(schemaType, "https://")
+		}
+
+		if knownType, exist := schemaTypeURLs[schemaType]; exist {
+			return knownType
+		}
+	}
+
+	return schemaTypeURLs[""]
 }
 
 // Extracts the property value from `element`. For some tags, the value
